@@ -319,7 +319,7 @@ ReadClock(c) ==
      \/ /\ NoDev("LegacyNoGuard", app) /\ ~(gaveUp /\ ("V2GuardGivesUp" \in dev \/ "V2GuardGivesUp" \in Forced))
         /\ clock <= lastTs
         /\ pc' = [pc EXCEPT ![c] = "guardFail"]
-        /\ g' = [g EXCEPT ![c] = clock] /\ tries' = [tries EXCEPT ![c] = @ + 1]
+        /\ g' = [g EXCEPT ![c] = clock] /\ tries' = [tries EXCEPT ![c] = IF @ > GiveUp THEN @ ELSE @ + 1]   \* saturating counter
         /\ UNCHANGED lastTs
      \/ \* DEVIATION: the legacy front-end has no guard; the timestamp is whatever the clock shows
         /\ Dev("LegacyNoGuard", app)
